@@ -390,6 +390,87 @@ pub fn finalize(
         }
     }
 
+    // Finalize HEAD before the hard reset, so index and work tree follow the final branch.
+    // Finalize HEAD: if HEAD points to a non-existent branch, try to remap;
+    // if detached or missing, prefer first updated branch or first existing branch.
+    // Get HEAD symbolic ref (if any)
+    let head_ref = Command::new("git")
+        .arg("-C")
+        .arg(&opts.target)
+        .arg("symbolic-ref")
+        .arg("-q")
+        .arg("HEAD")
+        .stdout(Stdio::piped())
+        .stderr(Stdio::null())
+        .output()?;
+    if !opts.dry_run {
+        let repo_refs_after = gitutil::get_all_refs(&opts.target)?;
+        if head_ref.status.success() {
+            let head = String::from_utf8_lossy(&head_ref.stdout).trim().to_string();
+            if !repo_refs_after.contains_key(&head) {
+                let mut updated_head: Option<String> = None;
+                if let Some((ref old, ref new_)) = opts.branch_rename {
+                    if let Some(tail) = head.strip_prefix("refs/heads/") {
+                        let tail_b = tail.as_bytes();
+                        if tail_b.starts_with(&old[..]) {
+                            let mut new_full = Vec::with_capacity(
+                                "refs/heads/".len()
+                                    + new_.len()
+                                    + (tail_b.len().saturating_sub(old.len())),
+                            );
+                            new_full.extend_from_slice(b"refs/heads/");
+                            new_full.extend_from_slice(new_);
+                            new_full.extend_from_slice(&tail_b[old.len()..]);
+                            let new_str = String::from_utf8_lossy(&new_full).to_string();
+                            if repo_refs_after.contains_key(&new_str) {
+                                updated_head = Some(new_str);
+                            }
+                        }
+                    }
+                }
+                let fallback = updated_head
+                    .or_else(|| {
+                        updated_branch_refs
+                            .iter()
+                            .next()
+                            .map(|b| String::from_utf8_lossy(b).to_string())
+                    })
+                    .or_else(|| {
+                        let mut branches: Vec<&String> = repo_refs_after
+                            .keys()
+                            .filter(|name| name.starts_with("refs/heads/"))
+                            .collect();
+                        branches.sort();
+                        branches.into_iter().next().cloned()
+                    });
+                if let Some(refstr) = fallback.filter(|s| !s.is_empty()) {
+                    let status = Command::new("git")
+                        .arg("-C")
+                        .arg(&opts.target)
+                        .arg("symbolic-ref")
+                        .arg("HEAD")
+                        .arg(&refstr)
+                        .status()?;
+                    if !status.success() {
+                        eprintln!("warning: failed to update HEAD to {}: {}", refstr, status);
+                    }
+                }
+            }
+        } else if let Some(first) = updated_branch_refs.iter().next() {
+            let refstr = String::from_utf8_lossy(first).to_string();
+            let status = Command::new("git")
+                .arg("-C")
+                .arg(&opts.target)
+                .arg("symbolic-ref")
+                .arg("HEAD")
+                .arg(&refstr)
+                .status()?;
+            if !status.success() {
+                eprintln!("warning: failed to update HEAD to {}: {}", refstr, status);
+            }
+        }
+    }
+
     // Optional reset --hard on target
     if !opts.dry_run && opts.reset {
         let mut reset = Command::new("git");
@@ -549,86 +630,6 @@ pub fn finalize(
                     FilterRepoError::Io(io::Error::other(format!("JSON serialization failed: {e}")))
                 })?;
                 f.write_all(empty.as_bytes())?;
-            }
-        }
-    }
-
-    // Finalize HEAD: if HEAD points to a non-existent branch, try to remap;
-    // if detached or missing, prefer first updated branch or first existing branch.
-    // Get HEAD symbolic ref (if any)
-    let head_ref = Command::new("git")
-        .arg("-C")
-        .arg(&opts.target)
-        .arg("symbolic-ref")
-        .arg("-q")
-        .arg("HEAD")
-        .stdout(Stdio::piped())
-        .stderr(Stdio::null())
-        .output()?;
-    if !opts.dry_run {
-        let repo_refs_after = gitutil::get_all_refs(&opts.target)?;
-        if head_ref.status.success() {
-            let head = String::from_utf8_lossy(&head_ref.stdout).trim().to_string();
-            if !repo_refs_after.contains_key(&head) {
-                let mut updated_head: Option<String> = None;
-                if let Some((ref old, ref new_)) = opts.branch_rename {
-                    if let Some(tail) = head.strip_prefix("refs/heads/") {
-                        let tail_b = tail.as_bytes();
-                        if tail_b.starts_with(&old[..]) {
-                            let mut new_full = Vec::with_capacity(
-                                "refs/heads/".len()
-                                    + new_.len()
-                                    + (tail_b.len().saturating_sub(old.len())),
-                            );
-                            new_full.extend_from_slice(b"refs/heads/");
-                            new_full.extend_from_slice(new_);
-                            new_full.extend_from_slice(&tail_b[old.len()..]);
-                            let new_str = String::from_utf8_lossy(&new_full).to_string();
-                            if repo_refs_after.contains_key(&new_str) {
-                                updated_head = Some(new_str);
-                            }
-                        }
-                    }
-                }
-                let fallback = updated_head
-                    .or_else(|| {
-                        updated_branch_refs
-                            .iter()
-                            .next()
-                            .map(|b| String::from_utf8_lossy(b).to_string())
-                    })
-                    .or_else(|| {
-                        let mut branches: Vec<&String> = repo_refs_after
-                            .keys()
-                            .filter(|name| name.starts_with("refs/heads/"))
-                            .collect();
-                        branches.sort();
-                        branches.into_iter().next().cloned()
-                    });
-                if let Some(refstr) = fallback.filter(|s| !s.is_empty()) {
-                    let status = Command::new("git")
-                        .arg("-C")
-                        .arg(&opts.target)
-                        .arg("symbolic-ref")
-                        .arg("HEAD")
-                        .arg(&refstr)
-                        .status()?;
-                    if !status.success() {
-                        eprintln!("warning: failed to update HEAD to {}: {}", refstr, status);
-                    }
-                }
-            }
-        } else if let Some(first) = updated_branch_refs.iter().next() {
-            let refstr = String::from_utf8_lossy(first).to_string();
-            let status = Command::new("git")
-                .arg("-C")
-                .arg(&opts.target)
-                .arg("symbolic-ref")
-                .arg("HEAD")
-                .arg(&refstr)
-                .status()?;
-            if !status.success() {
-                eprintln!("warning: failed to update HEAD to {}: {}", refstr, status);
             }
         }
     }
